@@ -97,6 +97,7 @@ impl<K: KeyT, V: ValT> MapWorld<K, V> {
         }
         // SerdeStream into a fresh map that then replaces the slot's map
         let (items, hint, err_at) = stream_of(op, K::UNIVERSE);
+        let items: Vec<(u32, u32)> = items.into_iter().map(|(k, v)| (k, Self::nv(v))).collect();
         let n = items.len();
         if hint.map_or(false, |h| h != n) {
             sim().probe(Probe::SerdeLyingHint);
